@@ -172,6 +172,10 @@ def gen_cases(tier: str, seed: int) -> List[Dict]:
             if src == "c06":
                 mixed = [c for c in pool if c.get("id", "").endswith("-mixed") and not c.get("options")]
                 always = rng.sample(mixed, min(4 if quick else 2, len(mixed)))
+            if src == "c02":
+                # arguments that only exist under some option settings (q1 - q1 with its zero term retained) given to evaluation
+                dis = [c for c in pool if "disguised-number" in c.get("id", "")]
+                always = rng.sample(dis, min(2 if quick else 1, len(dis)))
             if src == "c07":
                 # ordering functions must follow sort_*, never display_*: always one case whose sort flags are the opposite of this
                 # configuration's display flags, on monomials that graded and ungraded orders rank differently
@@ -197,6 +201,9 @@ def gen_cases(tier: str, seed: int) -> List[Dict]:
                     opt.update({k: v for k, v in base.items() if k in ("sort_graded", "sort_reverse")})
                 elif restriction == "display-only":
                     opt.update(base)
+                if "special" in (str(c.get("op")), str(c.get("fn")), str(c.get("mode"))) or str(c.get("op", "")).endswith(":special"):
+                    # the native special-value oracles name terms by exponent position: the declared names have to stay as built
+                    opt["retain_names"] = True
                 if not opt.get("retain_names", True):
                     # a *cleaned* input would itself lose unused names under retain_names=False, and designations by
                     # name / index / keyword would then refer to indeterminates the input no longer has: build raw
